@@ -20,6 +20,8 @@ def run(ctx):
     pepsolve.r_fresh_declarations(ctx)
     pepsolve.r_declare(ctx)
     pepsolve.r_registry(ctx)
+    from . import leafprog
+    leafprog.r_function_creation(ctx)   # every function, leaf or combination, enters the registry the solve root iterates, once, with containers of its own
     wrappers.r_sense(ctx)
     wrappers.r_cmp(ctx)
     translate.r_keykinds(ctx)
